@@ -25,6 +25,8 @@ def handle (op : String) (args : Json) : Except String Json :=
   | "c07.global" => LK.Driver.Misc.c07Global args
   | "c04.scatter" => LK.Driver.C04.run args
   | "c12.batch" => LK.Driver.C12.run args
+  | "c18.train_all" => LK.Driver.C18.run args
+  | "c18.guard" => LK.Driver.C18.guard args
   | "c14.run" => LK.Driver.C14.run args
   | "c13.canon_json" => LK.Driver.C13.canon args
   | "c15.crash" => LK.Driver.Misc.c15Crash args
